@@ -118,39 +118,68 @@ def _emitted(name, scalar_type, dt0):
     return txt.split("(", 1)[0], node
 
 
+_ORDER = {"f": 0, "d": 1, "l": 2}
+
+
+def _folds(name, dt0):
+    """Does lnodes._math_function fold `name` away on an operand of dtype dt0 (so that no call is emitted)?"""
+    import ffcx.codegeneration.lnodes as L
+
+    class _Op:
+        _ufl_handler_name_ = name
+    D = {"real": L.DataType.REAL, "scalar": L.DataType.SCALAR, "int": L.DataType.INT}
+    return not isinstance(L._math_function(_Op, L.Symbol("a", D[dt0])), L.MathFunction)
+
+
+def _real_mode_strips_complex_nodes():
+    """In a real kernel UFL's remove_complex_nodes has removed conj/real/imag: no such call reaches LNodes."""
+    from ufl import Coefficient, TestFunction, conj, dx, real
+    from . import sexp
+    from .corpus import Entry, space
+
+    def b():
+        m, V = space("triangle", "P", 1)
+        v, f = TestFunction(V), Coefficient(V)
+        return [(real(f) + conj(f) * f) * v * dx]   # (`imag` is rejected by UFL in real mode)
+    cases = kernels.cases_for_entry(Entry("dtype_real_mode_strip", b), pipeline.default_options(scalar_type="float64"))[0]
+    return not any(re.search(r"\(call (real|imag|conj) ", c.ast_sexp) for c in cases)
+
+
 def check_math_table(chk, d):
-    """Complete scan.  Returns the list of rows (also stored in chk.notes['dtype_math_table'])."""
-    rows, latent = [], []
+    """Complete scan.  Returns the list of rows (also summarised in chk.notes)."""
+    rows, latent, wider, folded = [], [], [], []
+    stripped = _real_mode_strips_complex_nodes()
+    if not stripped:
+        chk.disagree("math table: conj/real/imag reach LNodes in a real kernel (UFL's remove_complex_nodes expected)", {})
     for name in _handler_names():
         for st in _SCALAR_TYPES:
             cplx = st.startswith("complex")
             for dt0 in ("real", "scalar"):
-                if name in _BESSEL:
-                    # args[0] is the order (LiteralInt, dtype INT): the table of the scalar type is used
-                    fn, node = _emitted(name, st, dt0)
-                    node_dt = "int"
-                else:
-                    fn, node = _emitted(name, st, dt0)
-                    node_dt = dt0
+                if name in ("conj", "real", "imag"):
+                    if not cplx:
+                        continue      # cannot occur: stripped by UFL in real mode (checked above)
+                    if _folds(name, dt0):
+                        folded.append(f"{name}({dt0})")
+                        continue      # lnodes._math_function returns the operand / 0.0: no call is emitted
+                fn, node = _emitted(name, st, dt0)
+                # Bessel: args[0] is the order (LiteralInt, dtype INT), so the table of the scalar type is used
+                node_dt = "int" if name in _BESSEL else dt0
                 sig = C99.get(fn)
                 row = {"name": name, "scalar_type": st, "arg0": node_dt, "arg": dt0, "emitted": fn, "sig": sig}
                 rows.append(row)
                 chk.case("math_table_sig", f"{name}:{st}:{dt0}")
                 key = f"c09:mathtable:{name}:{st}"
                 if sig is None:
-                    if name in ("bessel_i", "bessel_k"):
-                        continue  # no lookup in _ufl_call_lookup: cannot be emitted (asserted by _handler_names)
                     chk.violation(key, f"math function `{name}` is emitted as `{fn}` for {st}: not a C99/POSIX function",
                                   {"name": name, "type": st, "emitted": fn})
                     continue
                 par, res, prec = sig
-                # model's view (complex kernels only: for real scalar types SCALAR and REAL are the same C type)
                 r = d.ask(f"(dtypecert sig {name} {node_dt})")
                 model_trunc = r[1] == "true"
                 model_ty = r[2]
                 if cplx:
+                    # the model describes complex kernels (for real scalar types SCALAR and REAL are the same C type)
                     real_table = (node_dt == "real")
-                    # which C parameter class does the model predict?
                     if model_trunc != (par == "real"):
                         chk.disagree("math table: model `truncatesArgs` disagrees with the C signature of the emitted function",
                                      {"name": name, "scalar_type": st, "arg0_dtype": node_dt, "emitted": fn, "c99": sig, "model": r})
@@ -158,19 +187,23 @@ def check_math_table(chk, d):
                         chk.disagree("math table: model `callTy` disagrees with the C result type of the emitted function",
                                      {"name": name, "scalar_type": st, "arg0_dtype": node_dt, "emitted": fn, "c99": sig, "model": r})
                     if par == "real" and not real_table and dt0 == "scalar":
-                        # a function with double parameters listed in / falling through the complex table:
-                        # harmless iff the generator never hands it a SCALAR argument — decided per kernel by the certificate
+                        # a function with double parameters listed in / falling through the complex table: harmless iff the
+                        # generator never hands it a SCALAR argument — decided per kernel by the certificate
                         latent.append(f"{name}->{fn} ({st})")
                     if par == "complex" and real_table:
                         chk.violation(key, f"`{name}` on a REAL operand is emitted as complex `{fn}`", row)
-                else:
-                    if par != "real" and not (name in ("conj", "real", "imag")):
-                        chk.violation(key, f"`{name}` is emitted as `{fn}` for {st}: complex function in a real kernel", row)
-                # precision: jn/yn exist in double only (float kernels convert, no information is lost on the way in)
-                if prec != _PREC[st] and fn not in ("jn", "yn"):
-                    chk.violation(key + ":precision", f"`{name}` is emitted as `{fn}` for {st}: wrong floating precision", row)
+                elif par != "real":
+                    chk.violation(key, f"`{name}` is emitted as `{fn}` for {st}: complex function in a real kernel", row)
+                # precision: a NARROWER function loses digits (violation); a wider one (double `atan2`/`erf`/`jn`/`yn` in a
+                # float kernel: dead key "atan_2", no float Bessel in C) only converts float -> double -> float (noted)
+                if _ORDER[prec] < _ORDER[_PREC[st]]:
+                    chk.violation(key + ":precision", f"`{name}` is emitted as `{fn}` for {st}: narrower floating precision", row)
+                elif _ORDER[prec] > _ORDER[_PREC[st]]:
+                    wider.append(f"{name}->{fn} ({st})")
     chk.notes["dtype_math_table_rows"] = len(rows)
     chk.notes["dtype_math_table_latent_real_param_in_complex_table"] = sorted(set(latent))
+    chk.notes["dtype_math_table_wider_precision"] = sorted(set(wider))
+    chk.notes["dtype_math_table_folded"] = sorted(set(folded))
     return rows
 
 
@@ -229,9 +262,19 @@ class _ComplexSpecials:
         orig = oracle.Interp.ev
 
         def ev(self_, e, env, side=None, derivs=()):
-            if isinstance(e, C.BesselJ) and not derivs:
-                nu = int(e.ufl_operands[0])
-                return _ComplexSpecials.besselj(nu, orig(self_, e.ufl_operands[1], env, side))
+            if not derivs:
+                if isinstance(e, C.BesselJ):
+                    nu = int(e.ufl_operands[0])
+                    return _ComplexSpecials.besselj(nu, orig(self_, e.ufl_operands[1], env, side))
+                # complex mode: every value is mathematically complex — sqrt/ln/acos/… and ** of a negative REAL
+                # operand are the complex functions (UFL's own evaluation falls back to cmath), not NaN
+                if isinstance(e, C.Power):
+                    a = orig(self_, e.ufl_operands[0], env, side)
+                    b = orig(self_, e.ufl_operands[1], env, side)
+                    return np.power(np.asarray(a, dtype=complex), b)
+                for cls, fn in oracle._MATH.items():
+                    if isinstance(e, cls):
+                        return fn(np.asarray(orig(self_, e.ufl_operands[0], env, side), dtype=complex))
             return orig(self_, e, env, side, derivs)
         oracle.Interp.ev = ev
         return self
@@ -340,8 +383,9 @@ def _probe(which):
             "math_complex": lambda: (sqrt(f) + exp(g) + ln(f) + cos(f) + sin(g) + tan(0.3 * f) + cosh(f) + sinh(g)
                                      + tanh(0.3 * f) + acos(0.2 * f) + asin(0.2 * g) + atan(0.3 * f)) * conj(v) * dx,
             "real_imag_abs": lambda: (real(f) * imag(g) + abs(f) + abs(real(g)) + conj(f) * real(k) + imag(k) * f) * conj(v) * dx,
-            "pow_complex_base": lambda: (f**2.5 + f**2 + abs(g)**0.5 + f**real(k)) * conj(v) * dx,
-            "real_fn_of_geometry": lambda: (exp(x[0]) * sqrt(x[1] * x[1] + 1.0) * f + x[0]**1.5 * g + atan2(x[0], x[1] + 2.0) * f) * conj(v) * dx,
+            # (a non-literal exponent, e.g. f**real(k), hangs in UFL's own apply_algebra_lowering in complex mode)
+            "pow_complex_base": lambda: (f**2.5 + f**2 + abs(g)**0.5 + f**(0.5 + 1.5j)) * conj(v) * dx,
+            "real_fn_of_geometry": lambda: (exp(x[0]) * sqrt(x[1] * x[1] + 1.0) * f + (x[0] + 2.0)**1.5 * g + atan2(x[0], x[1] + 2.0) * f) * conj(v) * dx,
             "real_fn_of_real_parts": lambda: (atan2(real(f), imag(g) + 3.0) + erf(real(f)) + max_value(real(f), imag(g))
                                               + min_value(real(g), x[0]) + bessel_J(1, real(f))) * f * conj(v) * dx,
             "conditional_real_parts": lambda: conditional(lt(real(f), x[0]), f, conj(g)) * conj(v) * dx
@@ -353,6 +397,8 @@ def _probe(which):
             "atan2_complex_constant": lambda: atan2(x[0], k) * f * conj(v) * dx,
             "erf_complex": lambda: erf(f) * conj(v) * dx,
             "besselj_complex": lambda: bessel_J(1, f) * conj(v) * dx,
+            # --- certificate passes (nothing is truncated) but the REAL-table function leaves its real domain -----
+            "sqrt_negative_real_geometry": lambda: sqrt(x[0] - 100.0) * f * conj(v) * dx,
         }
         return [F[which]()]
     return b
@@ -378,6 +424,16 @@ PROBES_TRUNCATING = {
 }
 
 
+# outside the scope of the certificate AND of `dtype_sound` (hypothesis `fn_real_closed`: the real-table function agrees
+# with the complex one, i.e. returns a real): REAL operands outside the real domain of sqrt/ln/pow/acos/asin/…
+PROBES_DOMAIN = {
+    "sqrt_negative_real_geometry": (
+        "c09:dtype:real-table-function-outside-real-domain",
+        "complex mode: `sqrt(x[0]-100)` of REAL geometry is emitted as real `sqrt` and yields NaN where complex arithmetic "
+        "(and UFL's own evaluation) gives i*sqrt(100-x[0]); same for ln/pow/acos/asin/acosh/atanh of REAL operands"),
+}
+
+
 def probe_entries():
     from .corpus import Entry
     return ([Entry("dtype_" + n, _probe(n), tags=("cell", "complex")) for n in PROBES_OK],
@@ -385,8 +441,8 @@ def probe_entries():
 
 
 def _imag_insensitive(entry, scalar_type, seed):
-    """Secondary witness (no oracle needed): the compiled kernel gives the SAME tensor for data (w, c) and
-    (Re w, Re c) although the form depends on the imaginary parts."""
+    """Secondary witness (no oracle needed): the compiled kernel gives the SAME tensor for the constants c and
+    Re c (resp. coefficients w and Re w) although the form depends on their imaginary parts."""
     from . import numeric
     rng = np.random.default_rng(seed)
     objs, cases, comp, mod = numeric.build(entry, {"scalar_type": scalar_type})
@@ -395,11 +451,16 @@ def _imag_insensitive(entry, scalar_type, seed):
         ko = kernels.compiled_kernel(comp, c)
         inp = numeric.make_data(c, rng, scalar_type, complex_data=True)
         A1 = numeric.call_c(mod, ko, c, inp, scalar_type).copy()
-        inp2 = dict(inp)
-        inp2["w"], inp2["c"] = np.real(inp["w"]) + 0j, np.real(inp["c"]) + 0j
-        A2 = numeric.call_c(mod, ko, c, inp2, scalar_type).copy()
-        out.append({"kernel": c.name, "max_abs_change": float(np.abs(A1 - A2).max()),
+        chg = {}
+        for which in ("w", "c"):
+            inp2 = dict(inp)
+            inp2[which] = np.real(inp[which]) + 0j
+            A2 = numeric.call_c(mod, ko, c, inp2, scalar_type).copy()
+            chg[which] = float(np.abs(A1 - A2).max()) if inp[which].size else None
+        out.append({"kernel": c.name, "max_abs_change_when_w_replaced_by_real_part": chg["w"],
+                    "max_abs_change_when_c_replaced_by_real_part": chg["c"],
                     "w": [str(complex(z)) for z in inp["w"][:6]], "c": [str(complex(z)) for z in inp["c"][:4]],
+                    "coordinate_dofs": [float(v) for v in inp["coordinate_dofs"]],
                     "A": [str(complex(z)) for z in A1[:3]]})
     return out
 
@@ -439,6 +500,15 @@ def check_dtype_probes(chk, d, scalar_type="complex128"):
             # the kernel is numerically wrong on complex data but the certificate accepts it: the certificate is unsound
             chk.disagree("dtype certificate accepts a kernel that differs from complex arithmetic",
                          {"entry": name, "scalar_type": scalar_type, **bad[0]})
+    for name, (key, what) in PROBES_DOMAIN.items():
+        from .corpus import Entry
+        e = Entry("dtype_" + name, _probe(name), tags=("cell", "complex"))
+        s = check_dtype_certificates(chk, d, [e], (scalar_type,))   # must pass: nothing is truncated
+        bad, info = numeric_witness(e, scalar_type, seed=chk.seed)
+        chk.case("dtype_probe", f"{name}:{scalar_type}")
+        res["truncating"][name] = {"cert_fails": bool(s["failed"]), "numeric_bad": len(bad), "maxrel": info.get("maxrel")}
+        if bad and not s["failed"]:
+            chk.violation(key, what, {"entry": name, "scalar_type": scalar_type, **bad[0]})
     chk.notes["dtype_probes"] = res["truncating"]
     return res
 
